@@ -390,6 +390,63 @@ impl<W: Write> Runner<W> {
                     }
                 }
             }
+            "isa_run" => {
+                // run from instruction boundary to instruction boundary; one event per instruction
+                let key_every = geti(v, "key_every").unwrap_or(0);
+                // reach the first boundary silently
+                let mut guard = 0;
+                while !self.m.is_instruction_done() && self.m.state() == State::Running && guard < 6000 {
+                    let before = self.m.clone();
+                    self.m.raw_mut().trigger_clock_edge();
+                    guard += 1;
+                    if self.m == before {
+                        break;
+                    }
+                }
+                if self.m.is_instruction_done() && self.m.state() == State::Running {
+                    self.emit("isa_init", json!({}), true, None);
+                    for i in 0..n {
+                        if key_every > 0 && i % key_every == key_every - 1 {
+                            self.m.trigger_key_interrupt();
+                            self.emit("isa_key", json!({}), true, None);
+                        }
+                        let mut k: i64 = 0;
+                        let mut left = false;
+                        let mut outcome = "isa_stuck";
+                        loop {
+                            let before = self.m.clone();
+                            let r = catch_unwind(AssertUnwindSafe(|| self.m.raw_mut().trigger_clock_edge()));
+                            if let Err(e) = r {
+                                self.emit_panic(&op, v.clone(), panic_msg(e));
+                                outcome = "panic";
+                                break;
+                            }
+                            k += 1;
+                            if self.m.state() != State::Running {
+                                outcome = "isa_halt";
+                                break;
+                            }
+                            if !self.m.is_instruction_done() {
+                                left = true;
+                            }
+                            if left && self.m.is_instruction_done() {
+                                outcome = "isa_insn";
+                                break;
+                            }
+                            if self.m == before || k > 6000 {
+                                break;
+                            }
+                        }
+                        if outcome == "panic" {
+                            break;
+                        }
+                        self.emit(outcome, json!({"k": k}), true, None);
+                        if outcome != "isa_insn" {
+                            break;
+                        }
+                    }
+                }
+            }
             "mode" => {
                 let md = v.get("v").and_then(|x| x.as_str()).unwrap_or("Real");
                 self.m.set_step_mode(if md == "Assembly" { StepMode::Assembly } else { StepMode::Real });
